@@ -16,7 +16,7 @@ pub fn prop() -> Prop {
         id: "C08",
         run,
         max_len: 600,
-        quick: 60_000,
+        quick: 100_000,
         thorough: 2_000_000,
         rule: "choice sequence -> envelope (every subject case: leaf, known value, wrapped, assertion, node, compressed, elided, encrypted; with and without assertions) x generated 32-byte key x optional fixed nonce; encrypt_subject/decrypt_subject and encrypt/decrypt round trips; then faults on the encrypted element taken apart with the harness codec, exactly one of {bit flip in ciphertext / nonce / tag / declared digest, declared digest replaced by another valid digest, ciphertext truncated / extended / replaced by another message's}, re-assembled into the envelope and decoded; then key-holder mis-declarations key.encrypt_with_digest(cbor(A), digest(B)), A != B, bare and as the subject of a node, and a plaintext that is not an envelope. oracle: encrypted form has the specification digest of the original at every surviving position; decrypt with the same key is identical to the original (structure, bytes, is_identical_to); wrong key, every fault and every mis-declaration give Err (never Ok, never a panic); a second encrypt_subject is refused. non-trivial: subject is not a bare leaf, or >=1 fault reached decrypt; distinct by FNV-64 of (encoding, key)",
         assumptions: &["ChaCha20-Poly1305 forgery probability is negligible", "an elided subject: refusal or placeholder encryption are both tolerated (not covered by the property)"],
@@ -238,6 +238,40 @@ pub fn run(data: &[u8], ctx: &mut Ctx) -> Outcome {
         let ad = nopanic!(ctx, ae.decrypt_subject(&key), "action", "C08/action");
         let ad = tryp!(ctx, ad.map_err(|x| format!("decrypt of an element made by the Encrypt action failed: {}", x)), "action", "C08/action");
         check!(ctx, ad.to_cbor_data() == orig_bytes, "action", "C08/action", "decrypting the Encrypt-action element does not give back the original");
+    }
+
+    // --- Encrypt action on an inner element: the ciphertext element, taken out of the result, decrypts to
+    // exactly the element it replaced
+    {
+        let els = m.elements();
+        let pick = els[src.below(els.len())];
+        if !pick.is_obscured() && pick.digest() != m.digest() {
+            let pd = pick.digest();
+            let t: std::collections::BTreeSet<crate::model::D32> = [pd].into_iter().collect();
+            let r = nopanic!(ctx, e.elide_removing_set_with_action(&bridge::to_hashset(&t), &ObscureAction::Encrypt(key.clone())), "inner", "C08/inner");
+            check!(ctx, r.digest() == e.digest(), "inner", "C08/inner/digest", "encrypting an inner element changed the root digest");
+            // find an encrypted element with that digest in the result
+            let found: std::cell::RefCell<Option<Envelope>> = std::cell::RefCell::new(None);
+            let visitor = |env: Envelope, _l: usize, _e: EdgeType, _p: Option<()>| -> Option<()> {
+                if env.is_encrypted() && d32(&env.digest()) == pd && found.borrow().is_none() {
+                    *found.borrow_mut() = Some(env);
+                }
+                None
+            };
+            r.walk(false, &visitor);
+            if let Some(enc_el) = found.into_inner() {
+                let dec = nopanic!(ctx, enc_el.decrypt_subject(&key), "inner", "C08/inner");
+                let dec = tryp!(ctx, dec.map_err(|x| format!("an element encrypted by the Encrypt action does not decrypt: {}", x)), "inner", "C08/inner/decrypt");
+                let dm = tryp!(ctx, bridge::read_out(&dec), "readout", "C08/readout");
+                // several elements may share the digest in different forms (plain / compressed, a known value and
+                // the equal tagged leaf): the decrypted element must be one of them
+                let forms: Vec<&M> = els.iter().filter(|x| x.digest() == pd).cloned().collect();
+                check!(ctx, forms.iter().any(|f| strict_eq(&dm, f)), "inner", "C08/inner/identical", "decrypting an inner element encrypted by the action gives {} which is none of the original elements with that digest ({})", dm.show(), pick.show());
+                let bad = nopanic!(ctx, enc_el.decrypt_subject(&other), "inner", "C08/inner");
+                check!(ctx, bad.is_err(), "inner", "C08/inner/wrong-key", "inner encrypted element opens with another key");
+                ctx.class("inner-element-encrypted");
+            }
+        }
     }
 
     // --- mis-declaration by a key holder
